@@ -264,7 +264,9 @@ func c01r3(w *World, rr *RuleRun) {
 	for ins := range w.LK.ops {
 		ops = append(ops, ins)
 	}
-	sort.Slice(ops, func(i, j int) bool { return w.P.InstrPos(ops[i])+instrString(ops[i]) < w.P.InstrPos(ops[j])+instrString(ops[j]) })
+	sort.Slice(ops, func(i, j int) bool {
+		return w.P.InstrPos(ops[i])+instrString(ops[i]) < w.P.InstrPos(ops[j])+instrString(ops[j])
+	})
 	for _, ins := range ops {
 		oi := w.LK.ops[ins]
 		if !w.P.IsLib(ins.Parent()) {
@@ -318,7 +320,9 @@ func c01r4(w *World, rr *RuleRun) {
 	for ins := range w.LK.ops {
 		ops = append(ops, ins)
 	}
-	sort.Slice(ops, func(i, j int) bool { return w.P.InstrPos(ops[i])+instrString(ops[i]) < w.P.InstrPos(ops[j])+instrString(ops[j]) })
+	sort.Slice(ops, func(i, j int) bool {
+		return w.P.InstrPos(ops[i])+instrString(ops[i]) < w.P.InstrPos(ops[j])+instrString(ops[j])
+	})
 	for _, ins := range ops {
 		oi := w.LK.ops[ins]
 		if !w.P.IsLib(ins.Parent()) || (oi.op != opLock && oi.op != opRLock) {
